@@ -164,6 +164,9 @@ func ReplayBatchFromIO(clck clock.Clock, data []io.ReadCloser, collectors []Batc
 		return errC
 	}
 
+	// Closed on the first error: the readers stop handing out batches,
+	// so that every source ends after the batch it is working on.
+	abort := make(chan struct{})
 	allErrs := make(chan error, len(data)*2)
 	for i := range data {
 		batches := make(chan edge.BufferedBatchMessage)
@@ -171,19 +174,22 @@ func ReplayBatchFromIO(clck clock.Clock, data []io.ReadCloser, collectors []Batc
 			allErrs <- replayBatchFromChan(clck, batches, collector, recTime)
 		}(collectors[i], batches, clck, recTime)
 		go func(data io.ReadCloser, batches chan<- edge.BufferedBatchMessage) {
-			allErrs <- readBatchFromIO(data, batches)
+			allErrs <- readBatchFromIO(data, batches, abort)
 		}(data[i], batches)
 	}
 	go func() {
-		// Wait for each one to finish and report first error if any
+		// Wait for all of them to finish and report the first error if any.
+		// The caller closes the collectors once it has the result,
+		// by then no source may be collecting anymore.
+		var firstErr error
 		for i := 0; i < cap(allErrs); i++ {
 			err := <-allErrs
-			if err != nil {
-				errC <- err
-				return
+			if err != nil && firstErr == nil {
+				firstErr = err
+				close(abort)
 			}
 		}
-		errC <- nil
+		errC <- firstErr
 	}()
 	return errC
 }
@@ -253,7 +259,7 @@ func replayBatchFromChan(clck clock.Clock, batches <-chan edge.BufferedBatchMess
 }
 
 // Replay the batch data from a single source
-func readBatchFromIO(data io.ReadCloser, batches chan<- edge.BufferedBatchMessage) error {
+func readBatchFromIO(data io.ReadCloser, batches chan<- edge.BufferedBatchMessage, abort <-chan struct{}) error {
 	defer close(batches)
 	defer data.Close()
 	dec := edge.NewBufferedBatchMessageDecoder(data)
@@ -263,7 +269,12 @@ func readBatchFromIO(data io.ReadCloser, batches chan<- edge.BufferedBatchMessag
 			return err
 		}
 		// Empty batches are replayed as well, replayBatchFromChan emits them.
-		batches <- b
+		select {
+		case batches <- b:
+		case <-abort:
+			// Another source failed, or the replay of this one did and no longer receives.
+			return nil
+		}
 	}
 	return nil
 }
